@@ -3584,7 +3584,6 @@ func stateAbsentMeansStale(c *Check, a *Anchors) {
 	c.Floor("state-absent-means-stale", n, 1)
 }
 
-
 // statePathHelper: a function or method of internal/fingerprint that returns a state-file path — a single string result
 // built with filepath.Join / SmartJoin (directly or through one more helper of the package).
 func statePathHelper(c *Check, fn *types.Func) bool {
@@ -3607,7 +3606,6 @@ func statePathHelper(c *Check, fn *types.Func) bool {
 	}
 	return joins
 }
-
 
 // isCacheMapExpr: the expression is the variable map of a templater Cache — the cacheMap field, or a call of a Cache method
 // whose every return is that field (a lazily initialising accessor).
@@ -3642,4 +3640,109 @@ func isCacheMapExpr(c *Check, info *types.Info, e ast.Expr) bool {
 		}
 	}
 	return true
+}
+
+// errorBranchExits (C03 / C16): an established failure is not merely logged.
+// Keys: the role of the call whose error is dropped (anchor label where there is one, else the callee).
+var errorContinueReviewed = map[string]string{
+	"mkdir":                "upstream behaviour: a directory that cannot be created is reported; the commands then fail in the missing directory with their own error",
+	"rollback":             "the rollback itself failed: reported (verbose) — the original error is what the task returns",
+	"cmd":                  "the deferred-command runner: a deferred command's own failure never changes the task's outcome (property C14)",
+	"closer":               "flushing the output writer failed: reported; the command's own error is what matters",
+	"experiments.Validate": "an unknown experiment value is a warning by design",
+	"watched-dirs":         "watch mode: a directory that cannot be registered is reported and the watcher keeps running",
+}
+
+func errorBranchExits(c *Check, a *Anchors, rule string) {
+	c.Rule(rule, "in Task's own code a branch guarded by `err != nil` that does nothing but log (calls of the logger / fmt / log packages only, no return, continue, break, fallback assignment or other call) is one of the reviewed log-and-continue sites: anywhere else, logging an error instead of returning it lets the function go on — and eventually report success — after a step has failed")
+	n, checked := 0, 0
+	ord := map[string]int{}
+	for _, fb := range c.P.Bodies() {
+		if !strings.HasPrefix(fb.Pkg.PkgPath, Mod) || bceSkipPkgs[fb.Pkg.PkgPath] {
+			continue
+		}
+		info := fb.Info()
+		inspectBody(fb.Body, func(nd ast.Node) bool {
+			ifs, ok := nd.(*ast.IfStmt)
+			if !ok || ifs.Else != nil {
+				return true
+			}
+			be, ok := ast.Unparen(ifs.Cond).(*ast.BinaryExpr)
+			if !ok || be.Op != token.NEQ || !isNilLit(info, be.Y) {
+				return true
+			}
+			v := varOf(info, be.X)
+			if v == nil || !isErrorType(v.Type()) {
+				return true
+			}
+			checked++
+			if hasJump(ifs.Body) || len(ifs.Body.List) == 0 {
+				return true
+			}
+			// log-only body: every statement is an expression statement calling a logger / fmt / log function
+			logOnly := true
+			for _, st := range ifs.Body.List {
+				es, ok := st.(*ast.ExprStmt)
+				if !ok {
+					logOnly = false
+					break
+				}
+				call, ok := ast.Unparen(es.X).(*ast.CallExpr)
+				if !ok {
+					logOnly = false
+					break
+				}
+				fn, _ := callee(info, call).(*types.Func)
+				if fn == nil || fn.Pkg() == nil || !(fn.Pkg().Path() == PkgLogger || fn.Pkg().Path() == "log" || fn.Pkg().Path() == "fmt") {
+					logOnly = false
+					break
+				}
+				if fn.Name() == "Fatal" || fn.Name() == "Fatalf" || fn.Name() == "Panic" || fn.Name() == "Panicf" {
+					logOnly = false
+				}
+			}
+			if !logOnly {
+				return true
+			}
+			n++
+			// whose error
+			var src types.Object
+			srcName := "?"
+			find := func(st ast.Stmt) {
+				if as, ok := st.(*ast.AssignStmt); ok && len(as.Rhs) == 1 {
+					for _, l := range as.Lhs {
+						if varOf(info, l) == v {
+							if call, ok := ast.Unparen(as.Rhs[0]).(*ast.CallExpr); ok {
+								src = callee(info, call)
+								srcName = calleeName(src)
+								if cv, isVar := src.(*types.Var); isVar {
+									srcName = cv.Name()
+								}
+							}
+						}
+					}
+				}
+			}
+			if ifs.Init != nil {
+				find(ifs.Init)
+			}
+			key := srcName
+			if l := a.labelObj(src); l != "" {
+				key = l
+			}
+			if a.is(src, c.P.Func(PkgTask, "Executor", "registerWatchedDirs")) {
+				key = "watched-dirs"
+			}
+			c.Fn(fb.Root())
+			if reason, ok := errorContinueReviewed[key]; ok {
+				c.OK(rule, ordinal(ord, key), ifs.Pos(), "reviewed: "+reason)
+				return true
+			}
+			c.Bad(rule, ordinal(ord, key), ifs.Pos(), fmt.Sprintf("the error of %s is established non-nil, the branch only logs it and execution falls through in %s: the failure is lost and the function goes on as if the step had succeeded", srcName, fnDisplay(fb.Root())))
+			return true
+		})
+	}
+	c.Extra["error_tests_without_else"] = checked
+	c.Floor(rule, checked, 150)
+	_ = n
 }
